@@ -230,6 +230,8 @@ def run(ctx: common.Ctx):
                     f'adding the GVF file ({name} -> all files) removed {len(lost)} peptide(s), e.g. '
                     f'{sorted(lost)[:3]}', dict(r['desc'], kind='add-file-removes', pair=name,
                                                lost=sorted(lost)[:20]))
+    # a second fusion record from the same donor breakpoint may only add peptides
+    cv_checks.fusion_pairs(ctx, ctx.n(40, 600))
     n = ctx.n(30, 400)
     jobs = [(ctx.rng('rjob', i).randrange(1 << 30), ctx.tier) for i in range(n)]
     with mp.get_context('fork').Pool(14) as pool:
